@@ -491,6 +491,12 @@ def py_hasattr(ctx, obj, name):
         raise
 
 
+def py_next(ctx, it, *default):
+    if hasattr(it, 'sym_next'):
+        return it.sym_next(ctx)
+    raise Unsupported('next() of %r' % (it,))
+
+
 def py_noop(ctx, *a, **k):
     return None
 
@@ -531,7 +537,7 @@ BUILTINS = {
     'all': py_all, 'any': py_any, 'tuple': py_tuple, 'list': py_list, 'range': py_range, 'enumerate': py_enumerate,
     'zip': py_zip, 'reversed': py_reversed, 'sorted': py_sorted, 'int': py_int, 'float': py_float, 'bool': py_bool,
     'divmod': py_divmod, 'getattr': py_getattr, 'hasattr': py_hasattr, 'print': py_noop, 'str': py_str, 'repr': py_str,
-    'set': py_set, 'frozenset': py_set, 'dict': py_dict, 'callable': py_callable,
+    'set': py_set, 'frozenset': py_set, 'dict': py_dict, 'callable': py_callable, 'next': py_next,
 }
 # type objects usable as isinstance targets map to themselves
 TYPE_OF_BUILTIN = {'int': int, 'float': float, 'bool': bool, 'tuple': tuple, 'list': list, 'str': str, 'dict': dict,
